@@ -25,7 +25,7 @@ RULE = ('one evaluation = one seeded simulated run: either 2-3 clients adding dy
         '(Averager) / at least one call was delayed (throttle); distinct = SHA-256 of the seam event log')
 ASSUMPTIONS = ['throttle is given time_func/sleep_func bound to the virtual clock (the seam the recipe offers); a virtual sleep lasts at least the requested time plus >= 1 microsecond',
                'Averager values are dyadic rationals so sums are exact in any order']
-PROBES = ('throttle_delayed', 'throttle_calls', 'throttle_raising_calls', 'throttle_across_processes', 'throttle_after_restart', 'avg_pops', 'lock_wait')
+PROBES = ('throttle_delayed', 'throttle_calls', 'throttle_raising_calls', 'throttle_across_processes', 'throttle_after_restart', 'avg_pops', 'lock_wait', 'handed_over_by_pickle')
 TECHNIQUE = 'deterministic simulation: seeded schedules + linearizability against (total,count); virtual-clock arrival patterns with a window-bound oracle over recorded start times'
 LEVEL_TEXT = ('seeded exploration of adder/popper interleavings decided by a linearizability search, and of arrival patterns x rates on '
               'a virtual clock decided by the exact window bound over all pairs of recorded start times plus completion of every call.')
@@ -54,6 +54,8 @@ def gen_case(seed, tier):
                'timeout': 60}
         if cfg['topology'] == 'shared':
             cfg['line_p'] = rng.choice((0.0, 0.05))
+        elif rng.random() < 0.3:
+            cfg['handoff'] = 'pickle'
         return {'seed': seed, 'cfg': cfg, 'progs': progs, 'faults': []}
     ncallers = rng.choice((1, 2, 3))
     arrivals = []
@@ -81,6 +83,8 @@ def gen_case(seed, tier):
     # callers as separate processes: each opens the directory itself and decorates its own copy of the function under the
     # same name - one bucket shared through the cache, not through Python objects
     cfg['procs'] = rng.random() < 0.4
+    if cfg['procs'] and rng.random() < 0.3:
+        cfg['handoff'] = 'pickle'
     # a restart: after the first callers are done, a new process on the same directory whose clock reads much LOWER (a
     # monotonic clock after a reboot, a device without a battery-backed clock) decorates the function again and calls it
     cfg['reboot'] = rng.random() < 0.15
@@ -102,12 +106,19 @@ def avg_apply(state, op):
     raise ValueError(name)
 
 
-def avg_factory(dc, path, cfg):
+def avg_factory(dc, path, cfg, handoff=False):
     if cfg['target'] == 'fanout':
         cache = dc.FanoutCache(path, shards=cfg['shards'], timeout=0.010)
     else:
         cache = dc.Cache(path, timeout=cfg.get('timeout', 60))
     av = dc.Averager(cache, 'avg-key')
+    if handoff:
+        # the worker did not open the directory itself: it was handed the Averager as an argument (multiprocessing pickles it)
+        import pickle
+        blob = pickle.dumps(av)
+        cache.close()
+        av = pickle.loads(blob)
+        cache = av._cache
     av.close = cache.close
     return av
 
@@ -123,7 +134,16 @@ def run_averager(case):
         out['history'].append(rec)
         fresh.close()
 
-    out = conc.run_and_inspect(case, inspect, factory=avg_factory)
+    built = [0]
+
+    def factory(dc, path, cfg):
+        # with cfg['handoff'], every second object was not opened by its user but handed over by pickling
+        built[0] += 1
+        return avg_factory(dc, path, cfg, handoff=cfg.get('handoff') == 'pickle' and built[0] % 2 == 0)
+
+    out = conc.run_and_inspect(case, inspect, factory=factory)
+    if case['cfg'].get('handoff') and built[0] >= 2:
+        out.setdefault('probes', {})['handed_over_by_pickle'] = 1
     violations = out['violations']
     base = {'digest': out.get('digest'), 'steps': out.get('steps', 0), 'switches': out.get('switches', 0),
             'fired': out.get('fired', {}), 'virtual_s': out.get('virtual_s', 0.0), 'picks': out.get('picks')}
@@ -205,6 +225,12 @@ def run_throttle(case):
                 work = globals_work[0]
                 if cfg.get('procs'):
                     own = dc.FanoutCache(world.path('c'), shards=cfg['shards']) if cfg['target'] == 'fanout' else dc.Cache(world.path('c'))
+                    if cfg.get('handoff') == 'pickle':
+                        # the process is handed the parent's cache object (multiprocessing pickles it) instead of opening the directory
+                        import pickle
+                        own.close()
+                        own = pickle.loads(pickle.dumps(cache))
+                        probes['handed_over_by_pickle'] = 1
                     work = throttled(own)(plain_work)
                     opened.append(own)
                     # decorating (re)fills the bucket - that is how the recipe initialises it - so every process decorates
